@@ -98,8 +98,13 @@ def oracle(case: dict) -> Outcome:
     recs.append(_record(A))
     # structural: one flat key per reachable state tensor
     for (name, p) in A.named_params():
-        nflat = len(sd0["state"][name])
         nreach = len(rm.walk(A.opt.state[p]))
+        if name not in sd0["state"]:
+            if nreach:
+                out.fail("C09.keys", "the saved state lacks a parameter whose optimizer state holds tensors", f"{name}: {nreach} state tensors (requires_grad={p.requires_grad})")
+                return out
+            continue
+        nflat = len(sd0["state"][name])
         if nflat != nreach or not all(isinstance(k, str) for k in sd0["state"][name]):
             out.fail("C09.keys", "number of saved entries differs from the number of state tensors of the parameter", f"{name}: saved {nflat}, reachable {nreach}")
     T_eff = T
